@@ -16,7 +16,11 @@ RULE = ("programs over TICKET / READ_TICKET / SPLIT_TICKET / JOIN_TICKETS mixed 
         "Oracle: reference ticket semantics (exact stacks incl. None results); after every step no ticket of amount 0 "
         "anywhere (deep walk), total amount per (ticketer, contents) never increases except by a successful TICKET, "
         "DUP of a ticket-bearing value fails; results typed `ticket T`. Non-trivial: a split or join happens after a "
-        "TICKET. Distinct = distinct program.")
+        "TICKET. Free tier: arbitrary, also ill-typed, instruction sequences chosen step by step from ~60 instruction groups "
+        "according to the real stack (ticket ops, DUP / DUP n / DIG / DUG / DIP, PAIR / UNPAIR / GET n / UPDATE n replacing "
+        "components of pushed pairs, SOME / LEFT / CONS onto lists of another element type, maps and big maps with ticket values, "
+        "GET / GET_AND_UPDATE / MAP / ITER over them, lambdas taking tickets, APPLY capturing one): only the conservation "
+        "invariants are checked there (no growth without TICKET, no zero ticket). Distinct = distinct program.")
 
 
 def oracle(case):
@@ -108,7 +112,7 @@ def _walk_real(item, acc):
     elif prim in ("list", "set"):
         for x in item.items:
             _walk_real(x, acc)
-    elif prim == "map":
+    elif prim in ("map", "big_map"):
         for _, x in item.items:
             _walk_real(x, acc)
     return acc
@@ -128,7 +132,131 @@ def _totals_real(items, case):
     return tot
 
 
+# ---- free tier: arbitrary (also ill-typed) instruction sequences, conservation invariants only ---------------------------------
+def P(prim, *args):
+    return {"prim": prim, "args": list(args)} if args else {"prim": prim}
+
+
+def I(n):
+    return {"int": str(n)}
+
+
+TNAT, TSTR = rv.T("nat"), rv.T("string")
+UNWRAP = P("IF_NONE", [P("PUSH", TSTR, {"string": "none"}), P("FAILWITH")], [])
+
+
+def _tk(ct):
+    return rv.T("ticket", ct)
+
+
+def _has_ticket(t):
+    return rv.contains_type(t, {"ticket"})
+
+
+def free_atoms(types):
+    """Instruction groups worth trying on a real stack whose item types (annotation-stripped Micheline) are `types`:
+    mostly groups that apply to what is on top, so that long productive chains arise."""
+    mint = [[P("PUSH", TNAT, I(5)), P("PUSH", TNAT, I(1)), P("TICKET"), UNWRAP], [P("PUSH", TNAT, I(3)), P("PUSH", TNAT, I(2)), P("TICKET"), UNWRAP],
+            [P("PUSH", TNAT, I(4)), P("PUSH", TSTR, {"string": "c"}), P("TICKET"), UNWRAP], [P("PUSH", TNAT, I(5)), P("PUSH", TNAT, I(1)), P("TICKET")]]
+    if not types:
+        return mint
+    a = list(mint[:2])
+    top = types[0]
+    p = top["prim"]
+    generic = [[P("DUP")], [P("DUP", I(1))], [P("SOME")], [P("LEFT", TNAT)], [P("PUSH", TNAT, I(0)), P("PAIR")], [P("PUSH", TNAT, I(0)), P("SWAP"), P("PAIR")],
+               [P("DROP")], [P("PUSH", TNAT, I(7))]]
+    a += generic
+    if p == "ticket":
+        tk = top
+        store = [
+            [P("EMPTY_BIG_MAP", TNAT, tk), P("SWAP"), P("SOME"), P("PUSH", TNAT, I(0)), P("UPDATE")],
+            [P("EMPTY_MAP", TNAT, tk), P("SWAP"), P("SOME"), P("PUSH", TNAT, I(0)), P("UPDATE")],
+            [P("NIL", tk), P("SWAP"), P("CONS")],
+            [P("NIL", TNAT), P("SWAP"), P("CONS")],  # ill-typed: must be refused
+            [P("PUSH", rv.T("pair", rv.T("option", TNAT), TNAT), {"prim": "Pair", "args": [{"prim": "None"}, I(0)]}), P("SWAP"), P("SOME"), P("UPDATE", I(1))],
+            [P("PUSH", rv.T("pair", rv.T("list", TNAT), TNAT), {"prim": "Pair", "args": [[], I(0)]}), P("NIL", tk), P("DIG", I(2)), P("CONS"), P("UPDATE", I(1))],
+            [P("PUSH", rv.T("pair", TNAT, TNAT), {"prim": "Pair", "args": [I(0), I(0)]}), P("SWAP"), P("UPDATE", I(2))],
+            [P("LAMBDA", rv.T("pair", tk, rv.T("unit")), tk, [P("CAR")]), P("SWAP"), P("APPLY")],  # capturing a ticket: must be refused
+            [P("LAMBDA", tk, rv.T("pair", tk, tk), [P("DUP"), P("PAIR")]), P("SWAP"), P("EXEC")],
+            [P("LAMBDA", tk, tk, []), P("SWAP"), P("EXEC")],
+            [P("READ_TICKET")], [P("READ_TICKET"), P("DROP")],
+            [P("PUSH", rv.T("pair", TNAT, TNAT), {"prim": "Pair", "args": [I(2), I(3)]}), P("SWAP"), P("SPLIT_TICKET")],
+            [P("PUSH", rv.T("pair", TNAT, TNAT), {"prim": "Pair", "args": [I(1), I(2)]}), P("SWAP"), P("SPLIT_TICKET")],
+            [P("PUSH", rv.T("pair", TNAT, TNAT), {"prim": "Pair", "args": [I(5), I(0)]}), P("SWAP"), P("SPLIT_TICKET")],
+        ]
+        a += store * 2
+        if len(types) >= 2 and types[1] == tk:
+            a += [[P("PAIR"), P("JOIN_TICKETS")]] * 4
+        if len(types) >= 2 and types[1]["prim"] in ("map", "big_map") and types[1]["args"][1] == tk:
+            a += [[P("SOME"), P("PUSH", TNAT, I(1)), P("UPDATE")], [P("SOME"), P("PUSH", TNAT, I(0)), P("UPDATE")],
+                  [P("SOME"), P("PUSH", TNAT, I(0)), P("GET_AND_UPDATE")]] * 2
+        if len(types) >= 2 and types[1]["prim"] == "list":
+            a += [[P("CONS")]] * 4
+    if p in ("map", "big_map"):
+        vt = top["args"][1]
+        a += [[P("PUSH", TNAT, I(0)), P("GET")], [P("DUP"), P("PUSH", TNAT, I(0)), P("GET")], [P("DUP"), P("PUSH", TNAT, I(0)), P("MEM")],
+              [P("NONE", vt), P("PUSH", TNAT, I(0)), P("GET_AND_UPDATE")], [P("DUP", I(1))], [P("DUP")]] * 2
+        if p == "map":
+            a += [[P("ITER", [P("DROP")])], [P("MAP", [P("CDR")])], [P("MAP", [P("CDR"), P("DUP"), P("PAIR")])], [P("MAP", [P("DUP"), P("CAR")])]]
+    if p == "list":
+        a += [[P("MAP", [])], [P("MAP", [P("DUP"), P("PAIR")])], [P("ITER", [P("DROP")])], [P("DUP")], [P("IF_CONS", [P("SWAP"), P("DROP")], [P("PUSH", TSTR, {"string": "e"}), P("FAILWITH")])],
+              [P("DUP"), P("SIZE")]] * 2
+    if p == "option":
+        a += [[UNWRAP], [P("IF_NONE", [P("PUSH", TSTR, {"string": "e"}), P("FAILWITH")], [P("DUP"), P("PAIR")])], [P("DUP")], [P("MAP", [P("DUP"), P("PAIR")])]] * 2
+    if p == "or":
+        a += [[P("IF_LEFT", [], [P("PUSH", TSTR, {"string": "e"}), P("FAILWITH")])], [P("DUP")]] * 2
+    if p == "pair":
+        a += [[P("UNPAIR")], [P("CAR")], [P("CDR")], [P("GET", I(1))], [P("GET", I(2))], [P("DUP"), P("CAR")], [P("DUP")], [P("JOIN_TICKETS")],
+              [P("UNPAIR"), P("DUP")], [P("DUP", I(1))]] * 2
+    if p == "lambda":
+        a += [[P("DUP")], [P("DUP"), P("PAIR")], [P("PUSH", rv.T("unit"), {"prim": "Unit"}), P("EXEC")], [P("DUP"), P("PUSH", rv.T("unit"), {"prim": "Unit"}), P("EXEC")]] * 2
+    if len(types) >= 2:
+        a += [[P("SWAP")], [P("PAIR")], [P("DUP", I(2))], [P("DIG", I(1))], [P("DIP", [P("DUP")])], [P("UPDATE", I(1))], [P("UPDATE", I(2))], [P("SWAP"), P("UPDATE", I(1))]]
+        if _has_ticket(types[1]):
+            a += [[P("DUP", I(2))], [P("DIP", [P("DUP")])], [P("DIP", [P("DUP"), P("DROP")])]] * 2
+    if len(types) >= 3:
+        a += [[P("PAIR", I(3))], [P("DUP", I(3))], [P("DIG", I(2))], [P("DIP", I(2), [P("DUP")])]]
+    return a
+
+
+def run_free(atoms_fn, case_log, case):
+    """Runs atom groups one by one on a live stack; atoms_fn(types) -> next group or None. Invariant: per (ticketer, contents)
+    the total amount never grows except through TICKET, and no zero-amount ticket exists."""
+    from pytezos.michelson.stack import MichelsonStack
+    env = xc.env_from_json(case["env"])
+    ctx = xc.pytezos_context(env)
+    stack = MichelsonStack()
+    totals = {}
+    did = set()
+    while True:
+        types = [interp.strip_annots(type(i).as_micheline_expr()) for i in stack.items]
+        group = atoms_fn(types)
+        if group is None:
+            break
+        case_log.append(group)
+        mints = "TICKET" in gp.instr_names(group)
+        stk, out, err = interp.run(list(group), stack=stack, context=ctx)
+        if err is not None:
+            break  # the execution is over (a failed instruction leaves no result)
+        did |= gp.instr_names(group)
+        real = _totals_real(stack.items, case)
+        for key, amt in real.items():
+            if amt > totals.get(key, 0) and not mints:
+                raise Violation("total amount of ticket %s grew from %d to %d by %s (no TICKET executed); history %s" % (
+                    key, totals.get(key, 0), amt, xc._short(group), xc._short(case_log)), dict(case, atoms=list(case_log)),
+                    "free:amount-increase:" + "+".join(sorted(gp.instr_names(group))))
+            if mints and amt > totals.get(key, 0) + 5:
+                raise Violation("TICKET of at most 5 raised the total of %s from %d to %d" % (key, totals.get(key, 0), amt),
+                                dict(case, atoms=list(case_log)), "free:mint-too-much")
+        totals = real
+    return did
+
+
 def replay(case):
+    if "atoms" in case:
+        it = iter(case["atoms"])
+        run_free(lambda types: next(it, None), [], case)
+        return
     oracle(case)
 
 
@@ -166,7 +294,27 @@ def _prop(case, stats):
         stats.label("did:" + n)
 
 
+def _prop_free(data, stats):
+    env = xc.env_to_json(data.draw(gp.env_strategy()))
+    n = data.draw(st.integers(3, 14))
+    log = []
+    state = {"k": 0}
+
+    def pick(types):
+        if state["k"] >= n:
+            return None
+        state["k"] += 1
+        return data.draw(st.sampled_from(free_atoms(types)))
+    case = {"env": env, "free": True}
+    did = run_free(pick, log, case)
+    nt = "TICKET" in did and len(did) >= 4
+    stats.case(log, nt, "free:%s" % ("minted" if "TICKET" in did else "no-ticket"), sample={"atoms": xc._short(log)[:500]})
+    for name in did & {"DUP", "UPDATE", "CONS", "APPLY", "EXEC", "GET", "GET_AND_UPDATE", "MAP", "SPLIT_TICKET", "JOIN_TICKETS"}:
+        stats.label("free-did:" + name)
+
+
 def run(h):
     h.run_given(lambda: cases((2, 10) if h.quick else (2, 25)), _prop, h.n(60, 5000), shards=16)
+    h.run_given(lambda: st.data(), _prop_free, h.n(150, 8000), shards=16, name="free")
     if h.stats.extra.get("generator_illtyped", 0) > 0.05 * max(1, h.stats.evaluations):
         raise Inconclusive("too many ill-typed programs generated")
